@@ -19,7 +19,10 @@ CHECKS = {
         'the real TorchDistributedCommunicator in simulated worlds of 2-4 '
         'ranks and compared bit-exactly with direct summation and with the '
         'unbucketed allreduce; small programs are explored over all '
-        'interleavings and completion times.',
+        'interleavings and completion times (at operation boundaries), and '
+        'over all schedules with <=1 (quick) / <=2 (thorough) deviations in '
+        'which a completion - whose callbacks run on another thread in real '
+        'backends - lands between any two lines of kfac/distributed.py.',
         'simdist (per-group FIFO collective matching, CPU tensors) stands in '
         'for gloo/NCCL; values are position-revealing integers only; '
         'sequences longer than 3 operations are not explored.',
@@ -195,7 +198,9 @@ CHECKS = {
         'registered gradients keep their metadata and stay finite; a digest '
         'of all K-FAC state must be unchanged by eval-mode passes; outputs '
         'and autograd gradients must be bit-equal to a deep-copied twin '
-        'without K-FAC.',
+        'without K-FAC; the set of registered parameters is derived '
+        'independently from the skip patterns; eval passes are also '
+        'inserted between micro-batches and between backward and step.',
         'leaf kinds and sizes from a fixed catalogue; quick runs 2 of 8 '
         'mode histories per program.',
         '3/C10'),
@@ -215,7 +220,10 @@ CHECKS = {
         'world 2 two layers two iterations, world 4 HYBRID one layer, also '
         'with free completion times) and a 3-layer 3-iteration world-4 '
         'program over all schedules with <=1 (quick) / <=2 (thorough) '
-        'deviations.',
+        'deviations; one-layer programs additionally with completions '
+        'landing between any two lines of the kfac sources (deviation-'
+        'bounded); the environment model is replayed against real gloo '
+        'processes (per-rank collective traces and results compared).',
         'simdist stands in for the backend (per-group FIFO matching; '
         'validated against gloo, DESIGN 2.7); values from a fixed lattice; '
         'exhaustive interleavings only for worlds <= 4 and small programs.',
@@ -251,7 +259,8 @@ CHECKS = {
         'compared bit-exactly on every rank; the continuation is compared '
         'with the reference machine and, where the property demands it, '
         'with the uninterrupted real run (bit-identical on the unchanged '
-        'tree).',
+        'tree); a state kept in memory (uncopied) while training continues '
+        'and then rolled back to must be unchanged.',
         'T = 4 (quick) / 6 (thorough); combinations the documentation '
         'excludes are not generated; simdist stands in for the backend.',
         '3/C09'),
@@ -267,8 +276,8 @@ CHECKS = {
         'found by an independent walk over the layer objects, and '
         'second-order data must be held iff the rank is a gradient worker '
         'of the layer (a column of the reference grid).',
-        'histories without load_state_dict; worlds <= 4 quick / <= 8 '
-        'thorough.',
+        'worlds <= 4 quick / <= 8 thorough; every third history contains a '
+        'save + load.',
         '3/C13'),
     'C11': (
         'explicit-state exploration of rank interleavings (exhaustive for '
